@@ -201,7 +201,7 @@ class Interp:
         """like rel_guard, additionally dropping the conjuncts that merely say
         'the loop body of L is executing' (loop condition and everything before it)"""
         g = self.cur_guard_list(state=True)
-        known = set(born) | getattr(L, "body_guard_set", set())
+        known = set(born) | getattr(L, "own_conds", set())
         return and_(*[c for c in g if c not in known])
 
     def born_now(self):
@@ -1853,6 +1853,7 @@ class _LoopMixin:
         fr.loop_stack.append(ctl)
         self.loop_ctx.append(L)
         pushed = 0
+        pre_set = set(self.cur_guard_list(state=True))
         try:
             if L.kind == "while":
                 c = self.truth(self.ev(st.test))
@@ -1865,6 +1866,7 @@ class _LoopMixin:
             if final:
                 L.body_guard = self.cur_guard()
             L.body_guard_set = set(self.cur_guard_list(state=True))
+            L.own_conds = L.body_guard_set - pre_set
             L.body_guard_full = set(self.cur_guard_list())
             ctl.base_set = L.body_guard_set
             if self.feasible():
